@@ -63,3 +63,19 @@ Theorem c18_no_duplicate_any_iterator : forall e, iter_env e -> forall progs, wf
   pairwise_disj (taken_all e (c_trace (exec e (init progs) sched))) = true.
 Proof. exact iter_taken_nodup. Qed.
 Print Assumptions c18_no_duplicate_any_iterator.
+
+(** containment at the level of single steps, without hypotheses (any kind, any crash point, any configuration):
+    a step of thread [u] records only events of [u] -- its call and its return, the panic report included --
+    so the events recorded during a schedule belong to the threads of the schedule, and a thread that takes
+    no step is reported nothing: a panic unwinds only the call in which it happened *)
+From OCI.proofs Require Import History.
+Theorem c18_events_belong_to_scheduled_threads : forall e s c,
+  exists evs, c_trace (exec e c s) = evs ++ c_trace c /\
+              Forall (fun ev => exists u, In u s /\ ev_by u ev) evs.
+Proof. exact events_belong_to_scheduled_threads. Qed.
+Print Assumptions c18_events_belong_to_scheduled_threads.
+
+Theorem c18_other_threads_are_reported_nothing : forall e s c t, ~ In t s ->
+  exists evs, c_trace (exec e c s) = evs ++ c_trace c /\ Forall (fun ev => ~ ev_by t ev) evs.
+Proof. exact unscheduled_thread_gets_no_event. Qed.
+Print Assumptions c18_other_threads_are_reported_nothing.
